@@ -282,8 +282,8 @@ STRATEGIES = [
     # name, per-check timeout (ms), drop quantified hypotheses, mbqi
     ("qf", 2500, True, False),
     ("ground", 6000, False, False),
-    ("ematch", 8000, False, False),
-    ("full", 10000, False, True),
+    ("ematch", 5000, False, False),
+    ("full", 6000, False, True),
     # counter-model search: quantified hypotheses replaced by their ground instances; a model found this way is a
     # *candidate* (it may violate a dropped quantified fact) and has to be validated by replay on the real code
     ("cex", 6000, True, True),
